@@ -6,6 +6,7 @@ package proxyfix
 
 import (
 	"fmt"
+	"net"
 	"os"
 	"path/filepath"
 	"strings"
@@ -82,6 +83,17 @@ func Start(initial map[string]*models.Namespace) (*Proxy, error) {
 	}
 	if initial == nil {
 		initial = map[string]*models.Namespace{}
+	}
+	// A Manager can be created only once per process and a failed NewServer closes it, so a
+	// temporary shortage of local ports (thousands of TIME_WAIT sockets while many checks run in
+	// parallel) is waited out BEFORE anything is created: up to a minute until a probe listen works.
+	for i := 0; i < 240; i++ {
+		ln, lerr := net.Listen("tcp4", "127.0.0.1:0")
+		if lerr == nil {
+			ln.Close()
+			break
+		}
+		time.Sleep(250 * time.Millisecond)
 	}
 	mgr, err := server.CreateManager(cfg, initial)
 	if err != nil {
@@ -175,6 +187,13 @@ func (cl *Cluster) All() []*fakemysql.Server {
 func (cl *Cluster) Close() {
 	for _, s := range cl.All() {
 		s.Close()
+	}
+}
+
+// Abort stops every backend with a connection reset (see fakemysql.Server.Abort).
+func (cl *Cluster) Abort() {
+	for _, s := range cl.All() {
+		s.Abort()
 	}
 }
 
